@@ -168,6 +168,21 @@ func (e *Engine) callFunction(st *State, fr *Frame, res ssa.Value, callee *ssa.F
 				fr.env[res] = e.evalOld(st, fr, at)
 			}
 			return false
+		case callee.Origin() != nil && callee.Origin().Name() == "allold":
+			// all objects of the type that existed before the function under verification was
+			// entered (references >= 1; objects allocated by the execution have negative ids)
+			fv := st.concretize(args[0][0])
+			id, _ := fv.ConstInt()
+			cl := e.closures[id]
+			if cl == nil {
+				engineErr("allold: body is not a closure literal")
+			}
+			bv := BVar("p", SInt)
+			body := e.evalSpecFn(st, cl.fn, append([]Val{{bv}}, cl.bindings...), []*Term{Le(IntC(1), bv)})
+			if res != nil {
+				fr.env[res] = Val{Forall([]*Term{bv}, Implies(Le(IntC(1), bv), body))}
+			}
+			return false
 		case callee.Origin() != nil && callee.Origin().Name() == "allrefs":
 			fv := st.concretize(args[0][0])
 			id, _ := fv.ConstInt()
@@ -728,6 +743,10 @@ func (e *Engine) reeval(st *State, fr *Frame, v ssa.Value, depth int) Val {
 			case *types.Map:
 				return Val{e.mapLen(st, t, a[0])}
 			}
+		}
+		if callee, ok := x.Call.Value.(*ssa.Function); ok && callee.Name() == "bigval" && strings.HasSuffix(e.W.Fset.Position(callee.Pos()).Filename, "zz_verif_gen.go") {
+			a := e.reeval(st, fr, x.Call.Args[0], depth+1)
+			return Val{bigGet(st, a[0])}
 		}
 		if callee, ok := x.Call.Value.(*ssa.Function); ok && len(callee.Blocks) > 0 && callee.Signature.Results().Len() == 1 &&
 			strings.HasSuffix(e.W.Fset.Position(callee.Pos()).Filename, "zz_verif_gen.go") && !e.isUninterp(callee) &&
